@@ -19,6 +19,8 @@ import (
 	"time"
 
 	kclock "k8s.io/utils/clock"
+
+	"github.com/dapr/kit/verifhook"
 )
 
 // Processor manages the queue of items and processes them at the correct time.
@@ -69,6 +71,7 @@ func (p *Processor[K, T]) Enqueue(r T) {
 	peek, _ = p.queue.Peek()         // No need to check for "ok" here because we know this will return an item
 	isFirst = isFirst || (peek == r) // This is also going to be true if the item just added landed at the front of the queue
 	p.process(isFirst)
+	verifhook.Point("queue.enqueue.locked", r, isFirst)
 	p.lock.Unlock()
 }
 
@@ -86,6 +89,7 @@ func (p *Processor[K, T]) Dequeue(key K) {
 		// If the item was the first one in the queue, restart the processor
 		p.process(true)
 	}
+	verifhook.Point("queue.dequeue.locked", key, ok && peek.Key() == key)
 	p.lock.Unlock()
 }
 
@@ -95,9 +99,12 @@ func (p *Processor[K, T]) Close() error {
 	defer p.wg.Wait()
 	if p.stopped.CompareAndSwap(false, true) {
 		// Send a signal to stop
+		verifhook.Point("queue.close.afterCAS")
 		close(p.stopCh)
+		verifhook.Point("queue.close.stopClosed")
 		// Blocks until processor loop ends
 		p.processorRunningCh <- struct{}{}
+		verifhook.Point("queue.close.tokenTaken")
 		return nil
 	}
 
@@ -111,6 +118,7 @@ func (p *Processor[K, T]) process(isNext bool) {
 	select {
 	case p.processorRunningCh <- struct{}{}:
 		// Nop - fallthrough
+		verifhook.Point("queue.process.tokenTaken")
 	default:
 		// Already running
 		if isNext {
@@ -118,6 +126,7 @@ func (p *Processor[K, T]) process(isNext bool) {
 			// Use a select in case another goroutine is sending a reset signal too
 			select {
 			case p.resetCh <- struct{}{}:
+				verifhook.Point("queue.process.resetSent")
 			default:
 			}
 		}
@@ -136,6 +145,7 @@ func (p *Processor[K, T]) processLoop() {
 	defer func() {
 		// Release the channel when exiting
 		<-p.processorRunningCh
+		verifhook.Point("queue.loop.released")
 	}()
 
 	var (
@@ -150,8 +160,10 @@ func (p *Processor[K, T]) processLoop() {
 		// Continue processing items until the queue is empty
 		p.lock.Lock()
 		r, ok = p.queue.Peek()
+		verifhook.Point("queue.loop.peeked", r, ok)
 		p.lock.Unlock()
 		if !ok {
+			verifhook.Point("queue.loop.sawEmpty")
 			return
 		}
 
@@ -160,13 +172,16 @@ func (p *Processor[K, T]) processLoop() {
 		select {
 		case <-p.stopCh:
 			// Exit on stop signals
+			verifhook.Point("queue.loop.exit", "poll")
 			return
 		case <-p.resetCh:
 			// Restart the loop on reset signals
+			verifhook.Point("queue.loop.reset", "poll")
 			continue
 		default:
 			// Nop, proceed
 		}
+		verifhook.Point("queue.loop.beforeArm", r)
 
 		scheduledTime = r.ScheduledTime()
 		deadline = scheduledTime.Sub(p.clock.Now())
@@ -174,19 +189,23 @@ func (p *Processor[K, T]) processLoop() {
 		// If the deadline is less than 0.5ms away, execute it right away
 		// This is more efficient than creating a timer
 		if deadline < 500*time.Microsecond {
+			verifhook.Point("queue.loop.fired", r, false)
 			p.execute(r)
 			continue
 		}
 
 		t = p.clock.NewTimer(deadline)
+		verifhook.Point("queue.loop.parked", r)
 		select {
 		// Wait for when it's time to execute the item
 		case <-t.C():
+			verifhook.Point("queue.loop.fired", r, true)
 			p.execute(r)
 
 		// If we get a reset signal, restart the loop
 		case <-p.resetCh:
 			// Restart the loop
+			verifhook.Point("queue.loop.reset", "armed")
 			continue
 
 		// If we receive a stop signal, exit
@@ -195,6 +214,7 @@ func (p *Processor[K, T]) processLoop() {
 			if !t.Stop() {
 				<-t.C()
 			}
+			verifhook.Point("queue.loop.exit", "armed")
 			return
 		}
 	}
@@ -209,10 +229,12 @@ func (p *Processor[K, T]) execute(r T) {
 	// It's unlikely, but if it's a different object then restart the loop
 	peek, ok := p.queue.Peek()
 	if !ok || peek != r {
+		verifhook.Point("queue.execute.stale", r)
 		p.lock.Unlock()
 		return
 	}
 	r, ok = p.queue.Pop()
+	verifhook.Point("queue.execute.popped", r, ok)
 	p.lock.Unlock()
 	if !ok {
 		return
